@@ -20,7 +20,7 @@ def _prove(name, hyps, goal, extra_axioms=(), timeout_ms=20000, with_axioms=True
     for seed in (0, 3, 2, 1):
         s = z3.Solver()
         s.set("rlimit", int(timeout_ms) * 4000)  # (deterministic budget, see solve.check)
-        s.set("timeout", max(8 * int(timeout_ms), 60000))
+        s.set("timeout", max(40 * int(timeout_ms), 900000))  # wall clock: a distant safety net only (overloaded machines)
         s.set("random_seed", seed)
         if with_axioms:
             for a in spec.axioms():
@@ -38,7 +38,7 @@ def _prove(name, hyps, goal, extra_axioms=(), timeout_ms=20000, with_axioms=True
             break
     if r != z3.unsat:
         from .solve import cvc5_check
-        ans = cvc5_check(s.to_smt2().replace("(check-sat)", ""), timeout_ms // 1000)
+        ans = cvc5_check(s.to_smt2().replace("(check-sat)", ""), 4 * timeout_ms // 1000)
         if ans == "unsat":
             r = z3.unsat
             backend = "cvc5"
